@@ -50,6 +50,9 @@ type sys struct {
 	deleted  map[channel.Key]bool // keys whose delete succeeded
 	lastFail bool
 	lastOp   string // kind (+ option) of the last op
+	hist     []string
+	stuck    bool   // a wait for convergence timed out on this instance
+	stale    string // name lookup that kept failing
 	poisoned bool
 }
 
@@ -141,7 +144,11 @@ func (s *sys) engine(n int) []row {
 
 // wait until every node's metadata view lists the same channels (gossip is asynchronous)
 func (s *sys) converge() (map[int][]channel.Channel, bool) {
-	deadline := time.Now().Add(20 * time.Second)
+	deadline := time.Now().Add(10 * time.Second)
+	if s.stuck {
+		deadline = time.Now() // already known not to converge: one look
+	}
+	s.stale = ""
 	for {
 		views := map[int][]channel.Channel{}
 		same := true
@@ -171,12 +178,26 @@ func (s *sys) converge() (map[int][]channel.Channel, bool) {
 					}
 					if !hit {
 						same = false
+						s.stale = fmt.Sprintf("node %d does not find channel %d by its name %q", n, c.Key(), c.Name)
 						break
 					}
 				}
 			}
 		}
+		if !same && time.Now().After(deadline) {
+			s.stuck = true
+		}
 		if same || time.Now().After(deadline) {
+			if !same && os.Getenv("C15_DEBUG") != "" {
+				fmt.Fprintf(os.Stderr, "NOT CONVERGED after %v: refs=%v deleted=%v\n", s.hist, s.refs, s.deleted)
+				for n := 1; n <= s.sc.nodes; n++ {
+					var rs []row
+					for _, c := range views[n] {
+						rs = append(rs, metaRow(c))
+					}
+					fmt.Fprintf(os.Stderr, "   node %d: %s\n", n, rowsStr(rs))
+				}
+			}
 			return views, same
 		}
 		time.Sleep(2 * time.Millisecond)
@@ -344,6 +365,7 @@ func (s *sys) Apply(op string) (obs string, err error) {
 			err = vk.Violationf("panic:"+strings.Fields(op)[0], "%s panicked: %v", op, r)
 		}
 	}()
+	s.hist = append(s.hist, op)
 	f := strings.Fields(op)
 	var g int
 	fmt.Sscan(f[1], &g)
@@ -353,11 +375,16 @@ func (s *sys) Apply(op string) (obs string, err error) {
 		liveBefore[c.Key()] = c
 	}
 	s.lastFail = false
-	s.lastOp = f[0]
-	if f[0] == "mk" {
-		s.lastOp = "mk-" + f[3] + "-" + f[5]
-	} else if f[0] == "mkb" {
-		s.lastOp = "mkb-" + f[2]
+	switch f[0] {
+	case "mk", "mkb":
+		s.lastOp = "create"
+		if f[0] == "mk" && f[5] == "ow" {
+			s.lastOp = "create-overwrite"
+		}
+	case "rn", "rnm":
+		s.lastOp = "rename"
+	default:
+		s.lastOp = "delete"
 	}
 	switch f[0] {
 	case "mk", "mkb":
@@ -521,6 +548,10 @@ func (s *sys) Check() error {
 		return nil
 	}
 	views, same := s.converge()
+	if !same && s.stale != "" {
+		return vk.Violationf(s.fpPrefix()+"name-lookup-misses-channel:after-"+s.lastOp,
+			"all nodes list the same channels, but for 10 s %s (the name index of that node was not updated)", s.stale)
+	}
 	if !same {
 		var sb strings.Builder
 		for n := 1; n <= s.sc.nodes; n++ {
@@ -530,7 +561,7 @@ func (s *sys) Check() error {
 			}
 			fmt.Fprintf(&sb, "\n node %d: %s", n, rowsStr(rs))
 		}
-		return vk.Violationf(s.fpPrefix()+"metadata-views-differ", "after 20 s the nodes still list different channels:%s", sb.String())
+		return vk.Violationf(s.fpPrefix()+"metadata-views-differ", "after 10 s the nodes still list different channels:%s", sb.String())
 	}
 	all := views[1]
 	names := map[string]channel.Key{}
@@ -564,6 +595,13 @@ func (s *sys) Check() error {
 		sort.Slice(e, func(i, j int) bool { return e[i].Key < e[j].Key })
 		if rowsStr(m) != rowsStr(e) {
 			kind := classify(m, e)
+			if s.lastFail {
+				if strings.Contains(kind, "only-in-engine") {
+					kind = "engine-has-extra"
+				} else if strings.Contains(kind, "only-in-metadata") {
+					kind = "metadata-has-extra"
+				}
+			}
 			return vk.Violationf(s.fpPrefix()+"metadata-engine-mismatch:"+kind,
 				"node %d: metadata lists for this leaseholder\n   %s\n its engine holds\n   %s", n, rowsStr(m), rowsStr(e))
 		}
@@ -632,8 +670,12 @@ func classify(m, e []row) string {
 }
 
 func (s *sys) Canon() string {
-	views, _ := s.converge()
+	views, same := s.converge()
 	var sb strings.Builder
+	if !same {
+		// part of the real state: a node whose view or name index lags for good
+		sb.WriteString("NOT-CONVERGED:" + s.stale + "|")
+	}
 	for n := 1; n <= s.sc.nodes; n++ {
 		for _, c := range views[n] {
 			sb.WriteString(metaRow(c).String())
@@ -709,6 +751,9 @@ func main() {
 		r.Finish()
 	}
 	for i, sc := range scs {
+		if o := os.Getenv("C15_ONLY"); o != "" && !strings.Contains(sc.name, o) {
+			continue
+		}
 		cfg := mk(sc)
 		cfg.Deadline = time.Now().Add(r.Left() / time.Duration(len(scs)-i))
 		seqx.Merge(r, seqx.Explore(r, cfg))
